@@ -1056,6 +1056,13 @@ def legalCells : List Cell :=
    ⟨.header, .simple, false⟩, ⟨.header, .simple, true⟩,
    ⟨.cookie, .form, false⟩, ⟨.cookie, .form, true⟩]
 
+/-- Parameter.SerializationMethod's defaults (style, explode) when the document gives neither -/
+def defaultMethod : Loc → Sty × Bool
+  | .path => (.simple, false)
+  | .header => (.simple, false)
+  | .query => (.form, true)
+  | .cookie => (.form, true)
+
 /-! ## exclusion predicates (known-finding classes) -/
 
 /-- #31: cookie, form, explode=true with an array or object schema -/
